@@ -2,7 +2,7 @@
 //   stdin : "<xb> <xe> <db> <de> <n>"  (the doubles as decimal u64 bit patterns)
 //   stdout: "<answer> # <statistics of the property on the returned vector>"
 //           answer     = same format as lean/TfelVerif/C15/Driver.lean (one variant)
-//           statistics = size first last back minlen maxabs rmin rmax zero   (see below)
+//           statistics = size first last back minlen maxabs rmin rmax zero minpos   (see below)
 #include <cmath>
 #include <cstdint>
 #include <cstdio>
@@ -59,6 +59,7 @@ int main() {
     //  zero-length elements
     const double dir = (xe > xb) ? 1. : -1.;
     double back = 0., minlen = std::numeric_limits<double>::infinity(), maxabs = 0.;
+    double minpos = std::numeric_limits<double>::infinity();  // smallest non-zero |length|
     double rmin = std::numeric_limits<double>::infinity(), rmax = -rmin;
     std::size_t zero = 0, worst = 0;
     for (std::size_t i = 0; i != c; ++i) maxabs = std::fmax(maxabs, std::fabs(v[i]));
@@ -68,7 +69,11 @@ int main() {
         back = -len;
         worst = i;
       }
-      if (len == 0.) ++zero;
+      if (len == 0.) {
+        ++zero;
+      } else {
+        minpos = std::fmin(minpos, std::fabs(len));
+      }
       minlen = std::fmin(minlen, std::fabs(len));
       if (i + 2 < c) {
         const double len2 = dir * (v[i + 2] - v[i + 1]);
@@ -78,9 +83,9 @@ int main() {
       }
     }
     char buf[512];
-    std::snprintf(buf, sizeof buf, " # size=%zu first=%d last=%d back=%.17g at=%zu minlen=%.17g maxabs=%.17g rmin=%.17g rmax=%.17g zero=%zu",
+    std::snprintf(buf, sizeof buf, " # size=%zu first=%d last=%d back=%.17g at=%zu minlen=%.17g maxabs=%.17g rmin=%.17g rmax=%.17g zero=%zu minpos=%.17g",
                   c, int(c > 0 && toBits(v.front()) == bxb), int(c > 0 && toBits(v.back()) == bxe), back, worst, minlen,
-                  maxabs, rmin, rmax, zero);
+                  maxabs, rmin, rmax, zero, minpos);
     std::cout << buf << "\n";
   }
   return 0;
